@@ -190,6 +190,16 @@ Theorem C15_registry : forall ops n,
 Proof. exact registry_laws. Qed.
 Print Assumptions C15_registry.
 
+(* What closures panic WITH is a parameter of the programs ([KPanicV v]; every theorem above
+   quantifies over it).  Frame: programs that differ only in panic values behave alike under
+   every schedule - same closures executed / queued / accepted / rejected, the consumer alive in
+   both or in neither, the same steps enabled: no panic value of an earlier closure can keep a
+   later one from running. *)
+Theorem C15_panic_value_frame : forall progs progs' ws sched,
+  same_shape progs progs' -> panic_value_frame progs progs' ws sched.
+Proof. exact panic_value_frame_holds. Qed.
+Print Assumptions C15_panic_value_frame.
+
 (* ---- task ids (Part 1i): RunTask.id = (counter + 1) mod 2^32, one counter per process ----
    For every number of posters, every program, every value c0 of the counter when the
    scheduler comes into use - no range restriction - and every schedule in which each poster
@@ -361,4 +371,12 @@ Example C15_example_shared :
               ShStep 2 LCons; ShStep 2 LCons] in
   map (fun lc => clog (snd lc)) (sh_chains s) = [spec ex_chain; spec ex_chain; spec ex_chain]
   /\ sh_mem s = [ex_chain].
+Proof. vm_compute. repeat split. Qed.
+
+(* two panics with the same non-comparable value type in a row, then closures that return *)
+Example C15_example_panic_values :
+  let sched := [TPost 0; TPost 0; TPost 1; TPost 0; TCons; TCons; TCons; TCons] in
+  let s := run_sched (init [[KPanicV PSliceErr; KPanicV PSliceErr; KOk]; [KOk]] false) sched in
+  exec_ids s = [(0, 0); (0, 1); (1, 0); (0, 2)]%nat /\ alive s = true /\ escaped s = false /\ queue s = []
+  /\ exec_ids s = exec_ids (run_sched (init [[KPanic; KPanicV PMap; KOk]; [KOk]] false) sched).
 Proof. vm_compute. repeat split. Qed.
